@@ -1,0 +1,109 @@
+//go:build verif
+
+// Contracts for the deductive verifier in /verif (govc).  Comment-only file.
+
+package views
+
+// ---------------------------------------------------------------------------
+// C20: ViewPort - clamping invariant and clipping/translation of SetContent
+// ---------------------------------------------------------------------------
+
+//@ pred okX(v *ViewPort) = v.viewx >= 0 && (v.limx >= v.width ==> v.viewx + v.width <= v.limx)
+//@ pred okY(v *ViewPort) = v.viewy >= 0 && (v.limy >= v.height ==> v.viewy + v.height <= v.limy)
+
+//@ spec clampHigh(view int, lim int, size int) int = view > lim - size ? lim - size : view
+//@ spec clampView(view int, lim int, size int) int = clampHigh(view, lim, size) < 0 ? 0 : clampHigh(view, lim, size)
+
+//@ func (*ViewPort).ValidateViewX
+//@   arith math
+//@   ensures [exact] v.viewx == clampView(old(v.viewx), v.limx, v.width)
+//@   ensures [clamped] okX(v)
+//@   ensures [stable] old(v.viewx) >= 0 && old(v.viewx) <= v.limx - v.width ==> v.viewx == old(v.viewx)
+//@   modifies v.viewx
+
+//@ func (*ViewPort).ValidateViewY
+//@   arith math
+//@   ensures [exact] v.viewy == clampView(old(v.viewy), v.limy, v.height)
+//@   ensures [clamped] okY(v)
+//@   ensures [stable] old(v.viewy) >= 0 && old(v.viewy) <= v.limy - v.height ==> v.viewy == old(v.viewy)
+//@   modifies v.viewy
+
+//@ func (*ViewPort).ValidateView
+//@   arith math
+//@   ensures [exact] v.viewx == clampView(old(v.viewx), v.limx, v.width) && v.viewy == clampView(old(v.viewy), v.limy, v.height)
+//@   ensures [clamped] okX(v) && okY(v)
+//@   ensures [stableX] old(v.viewx) >= 0 && old(v.viewx) <= v.limx - v.width ==> v.viewx == old(v.viewx)
+//@   ensures [stableY] old(v.viewy) >= 0 && old(v.viewy) <= v.limy - v.height ==> v.viewy == old(v.viewy)
+//@   modifies v.viewx, v.viewy
+
+//@ func (*ViewPort).ScrollUp
+//@   arith math
+//@   ensures [inside] okY(v)
+//@   modifies v.viewy
+
+//@ func (*ViewPort).ScrollDown
+//@   arith math
+//@   ensures [inside] okY(v)
+//@   modifies v.viewy
+
+//@ func (*ViewPort).ScrollLeft
+//@   arith math
+//@   ensures [inside] okX(v)
+//@   modifies v.viewx
+
+//@ func (*ViewPort).ScrollRight
+//@   arith math
+//@   ensures [inside] okX(v)
+//@   modifies v.viewx
+
+//@ func (*ViewPort).MakeVisible
+//@   arith math
+//@   ensures [inside] okX(v) && okY(v)
+//@   ensures [visibleX] 0 <= x && x < v.limx && v.limx >= v.width && v.width >= 1 ==> v.viewx <= x && x < v.viewx + v.width
+//@   ensures [visibleY] 0 <= y && y < v.limy && v.limy >= v.height && v.height >= 1 ==> v.viewy <= y && y < v.viewy + v.height
+//@   modifies v.viewx, v.viewy
+
+//@ func (*ViewPort).Center
+//@   arith math
+//@   ensures [inside] (okX(v) && okY(v)) || (v.viewx == old(v.viewx) && v.viewy == old(v.viewy))
+//@   modifies v.viewx, v.viewy
+
+//@ func (*ViewPort).SetSize
+//@   arith math
+//@   ensures [inside] okX(v) && okY(v)
+//@   ensures [stored] v.width == width && v.height == height
+//@   modifies v.width, v.height, v.viewx, v.viewy
+
+//@ func (*ViewPort).SetContentSize
+//@   arith math
+//@   ensures [inside] okX(v) && okY(v)
+//@   ensures [stored] v.limx == width && v.limy == height && v.locked == locked
+//@   modifies v.limx, v.limy, v.locked, v.viewx, v.viewy
+
+//@ func (*ViewPort).SetContent
+//@   arith math
+//@   calls [translated] call(SetContent, recv, px, py, pch, pcomb, ps) ==>
+//@            px == x - v.viewx + v.physx && py == y - v.viewy + v.physy
+//@   calls [clipped] call(SetContent, recv, px, py, pch, pcomb, ps) ==>
+//@            v.physx <= px && px < v.physx + v.width && v.physy <= py && py < v.physy + v.height
+//@   calls [content] call(SetContent, recv, px, py, pch, pcomb, ps) ==> pch == ch && ps == s && sameslice(pcomb, comb)
+//@   ensures [once] calls(SetContent) <= 1
+//@   ensures [drawn] old(v.v) != nil && v.viewx <= x && x < v.viewx + v.width && v.viewy <= y && y < v.viewy + v.height ==> calls(SetContent) == 1
+//@   ensures [lockedlimits] old(v.locked) ==> v.limx == old(v.limx) && v.limy == old(v.limy)
+//@   ensures [grow] !old(v.locked) && old(v.v) != nil ==> v.limx == (x > old(v.limx) ? x : old(v.limx)) && v.limy == (y > old(v.limy) ? y : old(v.limy))
+//@   modifies v.limx, v.limy
+
+//@ func (*ViewPort).Fill
+//@   arith math
+//@   calls [inside] call(SetContent, recv, px, py, pch, pcomb, ps) ==>
+//@            v.physx <= px && px < v.physx + v.width && v.physy <= py && py < v.physy + v.height && pch == ch && ps == style
+//@   loop 1: invariant 0 <= y
+//@           decreases v.height - y
+//@   loop 1.1: invariant 0 <= x && 0 <= y && y < v.height
+//@           decreases v.width - x
+//@   modifies nothing
+
+//@ func (*ViewPort).Resize
+//@   arith math
+//@   ensures [noparent] old(v.v) == nil ==> v.width == old(v.width) && v.height == old(v.height) && v.physx == old(v.physx) && v.physy == old(v.physy)
+//@   modifies v.physx, v.physy, v.width, v.height
